@@ -251,7 +251,8 @@ def make_function(spec: dict, fnid: str, env: Env, *, is_async: bool) -> Any:
         lines.append("        _E.inflight -= 1")
     glob = {"_E": env, "_DEF": defaults, "_V": py_val, "_D": py_dec}
     if spec["body"]["b"] == "handlerDict":
-        glob["_RESP"] = {o: spec["body"].get("k", 1) for o in spec.get("dataOuts", [])}
+        # "distinct": the i-th DECLARED output answers k + i (so that it is visible which declared output a published value came from)
+        glob["_RESP"] = {o: spec["body"].get("k", 1) + (i if spec["body"].get("distinct") else 0) for i, o in enumerate(spec.get("dataOuts", []))}
     if spec["body"]["b"] == "closure":
         # def _factory(_c): <the function> ; return it — the text of two such functions is IDENTICAL whatever was captured, and it is
         # retrievable (registered with linecache), as for a function made by a factory defined in a file
